@@ -784,3 +784,14 @@ func (e *Env) shapeFamilyAxioms(body string) []string {
 	}
 	return out
 }
+
+func segsAllLit(segs []Seg) (string, bool) {
+	var sb strings.Builder
+	for _, s := range segs {
+		if s.K != "lit" {
+			return "", false
+		}
+		sb.WriteString(s.Lit)
+	}
+	return sb.String(), true
+}
